@@ -90,13 +90,17 @@ class Stage:
 
     # memory representations of the same values that the stage accepts on the pinned tree (probed): non-native byte
     # order (what astropy hands back for columns read from a FITS file), 2-D Fortran-ordered and transposed arrays
-    layouts = ("bigendian", "fortran2d", "transposed2d")
+    layouts = ("bigendian", "fortran2d", "transposed2d", "column", "masked")
 
     def call_layout(self, obj, arrays, c, kind, shape):
         """Calls the stage with the same per-event values in another memory representation; returns the outputs
         flattened back to event order (C order of the 2-D shape)."""
         r, q = shape
-        if kind == "bigendian":
+        if kind in ("column", "masked"):  # ndarray subclasses holding the same numbers
+            from ..strategies import as_layout
+
+            ins = tuple(as_layout(np.array(a, dtype=np.float64), kind)[0] for a in arrays)
+        elif kind == "bigendian":
             ins = tuple(np.array(a, dtype=np.float64).astype(">f8") for a in arrays)
         elif kind == "fortran2d":
             ins = tuple(np.asfortranarray(np.array(a, dtype=np.float64).reshape(r, q)) for a in arrays)
@@ -105,7 +109,7 @@ class Stage:
         snap = [np.ascontiguousarray(a).tobytes() for a in ins]
         outs = [np.asarray(o) for o in self.call(obj, ins, c)]
         require([np.ascontiguousarray(a).tobytes() for a in ins] == snap, f"{self.name} modified its ({kind}) inputs")
-        if kind == "bigendian":
+        if kind in ("bigendian", "column", "masked"):
             return outs
         flat = []
         for o in outs:
@@ -139,11 +143,18 @@ class GeomThrow(Stage):
         rows[:, 3] = np.clip(rows[:, 3], 1e-6, 1.0)
         return (rows[:, 0].copy(), rows[:, 1].copy(), rows[:, 2].copy(), rows[:, 3].copy())
 
-    layouts = ("bigendian", "fortran2d")
+    layouts = ("bigendian", "fortran2d", "column", "masked")
 
     def call_layout(self, obj, arrays, c, kind, shape):
         u = np.stack([np.array(a, dtype=np.float64) for a in arrays])
-        u = u.astype(">f8") if kind == "bigendian" else np.asfortranarray(u)
+        if kind == "column":
+            from astropy.table import Column
+
+            u = Column(u)
+        elif kind == "masked":
+            u = np.ma.MaskedArray(u)
+        else:
+            u = u.astype(">f8") if kind == "bigendian" else np.asfortranarray(u)
         return [np.asarray(o) for o in self.call(obj, arrays, c, u=u)]
 
     def call(self, obj, arrays, c, u=None):
@@ -374,7 +385,7 @@ class Radio(Stage):
     name = "radio"
     max_n = 2000
     scripted_rng = True
-    layouts = ("bigendian",)  # rejects N-D inputs on the pinned tree: no claim
+    layouts = ("bigendian", "column", "masked")  # rejects N-D inputs on the pinned tree: no claim
 
     def other_case(self, case):
         return dict(case, det={525.0: 33.0, 33.0: 2000.0, 2000.0: 525.0}[case["det"]])
@@ -515,9 +526,9 @@ def body_stage(case):
             require([v.tobytes() for v in views] == snap, f"{stage.name} modified its (strided) inputs")
             want = base
             labels.add("strided_inputs")
-        elif which in ("bigendian", "fortran2d", "transposed2d"):
+        elif which in ("bigendian", "fortran2d", "transposed2d", "column", "masked"):
             r_ = next((d for d in (2, 3, 5, 7) if n % d == 0 and n > d), None)
-            if which not in stage.layouts or (which != "bigendian" and r_ is None):
+            if which not in stage.layouts or (which in ("fortran2d", "transposed2d") and r_ is None):
                 continue
             with cut(f"{stage.name}({which} inputs)"):
                 r = stage.call_layout(obj, arrays, c, which, (r_, n // r_) if r_ else (1, n))
@@ -623,7 +634,7 @@ def body_stage(case):
             labels.add("second_object_interleaved")
         for j2, (g, b) in enumerate(zip(r, want)):
             # other memory representations reach other numpy loops (last-place differences in log/exp): values, not bits
-            same = same_values(g, b) if which in ("strided", "bigendian", "fortran2d", "transposed2d") else _bytes([g]) == _bytes([b])
+            same = same_values(g, b) if which in ("strided", "bigendian", "fortran2d", "transposed2d", "column", "masked") else _bytes([g]) == _bytes([b])
             require(same, f"{stage.name}: call #{step + 2} ('{which}') on the same object differs from a fresh object's result in output #{j2} (history {case['history'][: step + 1]})")
         last_out = r
     if len(case["history"]) >= 2:
@@ -835,7 +846,7 @@ def stage_case(names, sizes):
             "c": st.floats(0.01, 0.99),
             "perm": st.lists(st.floats(0.0, 1.0), min_size=16, max_size=16),
             "split": st.sampled_from(["0", "1", "n-1", "n", "0.5", "0.37", "0.9", "0.41"]),
-            "history": st.lists(st.sampled_from(["same", "perm", "half", "refill", "refill", "scribble", "alt", "other", "other", "strided", "reject", "reject", "bigendian", "fortran2d", "transposed2d", "churn", "interleave", "interleave", "interleave_other", "interleave_other", "float32", "copied"]), min_size=1, max_size=6),
+            "history": st.lists(st.sampled_from(["same", "perm", "half", "refill", "refill", "scribble", "alt", "other", "other", "strided", "reject", "reject", "bigendian", "fortran2d", "transposed2d", "churn", "interleave", "interleave", "interleave_other", "interleave_other", "float32", "copied", "column", "masked"]), min_size=1, max_size=6),
             "preempt": st.lists(st.one_of(st.integers(0, 40), st.integers(0, 400), st.integers(0, 6000)), min_size=1, max_size=3),
         }
     )
